@@ -231,6 +231,7 @@ func (x *Exec) wait(kind, st string, enabled func() bool) {
 }
 
 func (x *Exec) schedule(from *thread) {
+	beat.Add(1)
 	for {
 		if x.ended {
 			x.park(from)
